@@ -213,7 +213,8 @@ def decodeCues (bs : Bytes) : Res Cues :=
   if bs.length < 25 then .throw .invalid_argument else
   (do
     let n ← rd u64be
-    V2.reserveChk (Prim.s64 n) 56
+    let rem ← remaining
+    if Prim.s64 n < 0 ∨ (rem / 13 : Int) < Prim.s64 n then throwC .invalid_argument else
     let cs ← forN decodeCue n.toNat
     let adj ← rd u64be
     let flag ← rd u8
@@ -254,7 +255,8 @@ def decodeLoops (bs : Bytes) : Res Loops :=
   if bs.length < 8 then .throw .invalid_argument else
   (do
     let n ← rd u64le
-    V2.reserveChk (Prim.s64 n) 64
+    let rem ← remaining
+    if Prim.s64 n < 0 ∨ (rem / 23 : Int) < Prim.s64 n then throwC .invalid_argument else
     let ls ← forN decodeLoop n.toNat
     let rem ← remaining
     if rem ≠ 0 then throwC .invalid_argument else
